@@ -107,10 +107,20 @@ impl Kinematics for OPWKinematics {
                     let s_n;
                     if let Some(Singularity::A) = singularity {
                         let mut now = ik[s_idx];
-                        if are_angles_close(now[J5], 0.) {
+                        // Sign corrections of J4 and J6 (1.0 for J5 = +-180 case that
+                        // is handled in the joint coordinates as before)
+                        let mut sign_j4 = 1.0;
+                        let mut sign_j6 = 1.0;
+                        // The angle of J5 as the OPW model sees it (as in forward kinematics)
+                        let j5_model = now[J5] * self.parameters.sign_corrections[J5] as f64
+                            - self.parameters.offsets[J5];
+                        if are_angles_close(j5_model, 0.) {
                             // J5 = 0 singlularity, J4 and J6 rotate same direction
-                            s = previous[J4] + previous[J6];
-                            s_n = now[J4] + now[J6];
+                            // (in the OPW model, hence sign corrections are applied)
+                            sign_j4 = self.parameters.sign_corrections[J4] as f64;
+                            sign_j6 = self.parameters.sign_corrections[J6] as f64;
+                            s = sign_j4 * previous[J4] + sign_j6 * previous[J6];
+                            s_n = sign_j4 * now[J4] + sign_j6 * now[J6];
                         } else {
                             // J5 = -180 or 180 singularity, even if the robot would need
                             // specific design to rotate J5 to this angle without self-colliding.
@@ -131,8 +141,8 @@ impl Kinematics for OPWKinematics {
                         }
                         let j_d = angle / 2.0;
 
-                        now[J4] = previous[J4] + j_d;
-                        now[J6] = previous[J6] + j_d;
+                        now[J4] = previous[J4] + sign_j4 * j_d;
+                        now[J6] = previous[J6] + sign_j6 * j_d;
 
                         // Check last time if the pose is ok
                         let check_pose = self.forward(&now);
